@@ -208,25 +208,6 @@ theorem holds_of_checks (c : Code) (h1 : klCheck c = true) (h2 : listedCheck c =
   obtain ⟨e1, e2⟩ := stabilizer_circuit_implements (R := ℂ) hI c h3
   exact ⟨e1, hne, e2⟩
 
-/-! ### coverage: which generators exist, and the advertised parameters of each shipped code -/
-
-/-- **Every `generate_code*` function of `numqi.qec` is one of the eight shipped codes treated below**
-(the list is re-discovered on every run by introspection and from the AST of `_qecc.py`; a new or removed
-generator makes this fail). -/
-theorem generators_covered :
-    Generated.discovered = ["generate_code10_4_4", "generate_code11_2_5", "generate_code422", "generate_code442",
-      "generate_code523", "generate_code642", "generate_code883", "generate_code8_64_2"] := by decide
-
-/-- **the live objects advertise exactly the shipped parameters `((n, K, d))`** -/
-theorem code523_params : (code523.n, code523.K, code523.d) = (5, 2, 3) := by decide
-theorem code422_params : (code422.n, code422.K, code422.d) = (4, 2, 2) := by decide
-theorem code442_params : (code442.n, code442.K, code442.d) = (4, 4, 2) := by decide
-theorem code642_params : (code642.n, code642.K, code642.d) = (6, 4, 2) := by decide
-theorem code883_params : (code883.n, code883.K, code883.d) = (8, 8, 3) := by decide
-theorem code8_64_2_params : (code8_64_2.n, code8_64_2.K, code8_64_2.d) = (8, 64, 2) := by decide
-theorem code10_4_4_params : (code10_4_4.n, code10_4_4.K, code10_4_4.d) = (10, 4, 4) := by decide
-theorem code11_2_5_params : (code11_2_5.n, code11_2_5.K, code11_2_5.d) = (11, 2, 5) := by decide
-
 /-! ### what the driver executes is the model the theorems are about -/
 
 /-- **The tabulated evaluation of the driver is the proved model** on the first `2^n` positions:
